@@ -304,6 +304,18 @@ def run_sample(scn):
         finally:
             tools.multiprocessing, tools.sensitivity_command = saved[0], saved[1]
             sys.stdout, sys.stderr = saved[2], saved[3]
+        if scn.get("rerun_same_dir"):
+            # the same output directory is used again with other seeds: the workloads must be those of the new seeds
+            start = start + 1000
+            tools.multiprocessing = MP
+            tools.sensitivity_command = fake_sensitivity
+            calls.clear()
+            try:
+                with quiet():
+                    tools.sensitivity_sample_command(pfile, odir, n, start_seed=start, jitter_seed=scn.get("jitter_seed"))
+            finally:
+                tools.multiprocessing, tools.sensitivity_command = saved[0], saved[1]
+                sys.stdout, sys.stderr = saved[2], saved[3]
         texts = []
         for i in range(n):
             wf = os.path.join(odir, "w%d.csv" % i)
@@ -355,7 +367,7 @@ def gen_scn(r, family, tier):
         p.pop("random_seed", None)
         p["duration"] = min(p["duration"], 300.0)
         return {"kind": "sample", "params": p, "samples": r.randint(2, 5), "start_seed": r.choice([0, 1, 42, r.randint(0, 10 ** 6)]),
-                "jitter_seed": r.choice([None, 7]), "order_seed": r.randint(0, 99)}
+                "jitter_seed": r.choice([None, 7]), "order_seed": r.randint(0, 99), "rerun_same_dir": r.random() < 0.4}
     tps = r.choice([1, 2, 3, 5, 7, 10, 16, 30, 100, 100, 250, 1000, 10 ** 4, 10 ** 5])
     n = r.randint(1, 40)
     t = F(0)
